@@ -626,7 +626,7 @@ def oracle():
     while todo:
         c = todo.pop(); todo += c.__subclasses__()
         if getattr(c, "__abstractmethods__", None): continue
-        fs = [f for f in dataclasses.fields(c) if f.init]
+        fs = [f for f in dataclasses.fields(c) if f.init and f.name != "_type_"]      # `_type_` is the class tag every element carries
         if any(f.type not in (bool, "bool") for f in fs): return None
         for vals in itertools.product([True, False], repeat=len(fs)):
             try:
